@@ -253,7 +253,7 @@ class ComponentLevel2( ComponentLevel1 ):
                 raise UpdateFFBlockWriteError( s, func, '@=', nodelist[0].lineno,
                   "Fix the '@=' assignment with '<<='")
 
-              raise UpdateFFBlockWriteError( s, func, op+'=', nodelist[0].lineno,
+              raise UpdateFFBlockWriteError( s, func, type(op).__name__+'=', nodelist[0].lineno,
                 "Fix the signal assignment with '<<='")
 
 
@@ -276,7 +276,7 @@ class ComponentLevel2( ComponentLevel1 ):
               if isinstance( op, ast.LShift ):
                 raise UpdateBlockWriteError( s, func, '<<=', nodelist[0].lineno,
                   "Fix the '<<=' assignment with '@='")
-              raise UpdateBlockWriteError( s, func, op+'=', nodelist[0].lineno,
+              raise UpdateBlockWriteError( s, func, type(op).__name__+'=', nodelist[0].lineno,
                 "Fix the signal assignment with '@='")
 
         # This is a function call without "s." prefix, check func list
